@@ -2,10 +2,12 @@ package main
 
 import (
 	"bytes"
+	"context"
 	"errors"
 	"fmt"
 	"io"
 	"strings"
+	"syscall"
 	"time"
 
 	"go.pennock.tech/tabular"
@@ -44,7 +46,28 @@ type faultWriter struct {
 	reached  bool
 	failedAt int // offset in accepted bytes at the first failure
 	after    int // bytes accepted after the first failure
+	err      error // the error value reported (nil: errInjected)
 }
+
+func (w *faultWriter) e() error {
+	if w.err != nil {
+		return w.err
+	}
+	return errInjected
+}
+
+// c15ErrKind: when set (family error-kinds), the error value every fault writer of c15Run reports.
+var c15ErrKind error
+var c15ErrKindName string
+
+type c15NetErr struct {
+	msg                string
+	temporary, timeout bool
+}
+
+func (e *c15NetErr) Error() string   { return e.msg }
+func (e *c15NetErr) Temporary() bool { return e.temporary }
+func (e *c15NetErr) Timeout() bool   { return e.timeout }
 
 func (w *faultWriter) Write(p []byte) (int, error) {
 	w.calls++
@@ -54,7 +77,7 @@ func (w *faultWriter) Write(p []byte) (int, error) {
 			w.reached = true
 			w.failedAt = w.accepted.Len()
 		}
-		return 0, errInjected
+		return 0, w.e()
 	}
 	switch {
 	case w.mode == 1 && n >= w.k:
@@ -68,7 +91,7 @@ func (w *faultWriter) Write(p []byte) (int, error) {
 			w.reached = true
 			w.failedAt = w.accepted.Len()
 		}
-		return h, errInjected
+		return h, w.e()
 	case w.mode == 6 && n == w.k:
 		// every byte is taken AND an error is reported (a writer may do that: n == len(p) with a non-nil error)
 		w.accepted.Write(p)
@@ -76,7 +99,7 @@ func (w *faultWriter) Write(p []byte) (int, error) {
 			w.reached = true
 			w.failedAt = w.accepted.Len()
 		}
-		return len(p), errInjected
+		return len(p), w.e()
 	case w.mode == 4 && n == w.k:
 		h := len(p) / 2
 		w.accepted.Write(p[:h])
@@ -197,6 +220,36 @@ func runC15(x *X) {
 		}
 		k := 1 + c.Choose(r.calls)
 		mode := []int{1, 2, 3, 4, 6}[c.Choose(5)]
+		c15Run(x, c, tables[ti], rends[ri], wk, mode, k, 0, r.bytes, r.err, modeNames)
+	})
+	// error kinds: what the writer's error value IS must not matter (temporary / timeout / EAGAIN / EOF / short write)
+	kinds := []struct {
+		name string
+		err  error
+	}{
+		{"net-style error, Temporary() true", &c15NetErr{"temporarily unavailable", true, false}},
+		{"net-style error, Timeout() true", &c15NetErr{"i/o timeout", false, true}},
+		{"syscall.EAGAIN", syscall.EAGAIN},
+		{"syscall.EINTR", syscall.EINTR},
+		{"io.EOF", io.EOF},
+		{"io.ErrShortWrite", io.ErrShortWrite},
+		{"io.ErrClosedPipe wrapped by fmt.Errorf", fmt.Errorf("sink: %w", io.ErrClosedPipe)},
+		{"context.DeadlineExceeded", context.DeadlineExceeded},
+	}
+	x.Explore("error-kinds", ExploreOpts{ShardDepth: 3, Bound: fmt.Sprintf("%d kinds of error value (temporary, timeout, EAGAIN, EINTR, EOF, short write, wrapped, deadline) x 3 tables x every renderer x writer kind x every Write index k x {fail only at k, partial write with error at k, fail from k on}", len(kinds))}, func(c *Chooser) {
+		kd := kinds[c.Choose(len(kinds))]
+		ti, ri, wk := []int{0, 1, 4}[c.Choose(3)], c.Choose(len(rends)), c.Choose(2)
+		r := refs[[3]int{ti, ri, wk}]
+		if r.calls == 0 {
+			c.Choose(1)
+			c.Choose(1)
+			x.Note("no_write_calls(" + rends[ri].name + ")")
+			return
+		}
+		k := 1 + c.Choose(r.calls)
+		mode := []int{2, 3, 1}[c.Choose(3)]
+		c15ErrKind, c15ErrKindName = kd.err, kd.name
+		defer func() { c15ErrKind, c15ErrKindName = nil, "" }()
 		c15Run(x, c, tables[ti], rends[ri], wk, mode, k, 0, r.bytes, r.err, modeNames)
 	})
 	// tall tables (more body rows than any plausible batch size): single faults only
@@ -366,6 +419,11 @@ func c15Run(x *X, c *Chooser, tb c10Table, rd c15Renderer, wk, mode, k, k2 int, 
 		w = sw
 	}
 	tags := []string{"renderer:" + rd.name, "mode:" + mn, "writer:" + kind}
+	if c15ErrKind != nil {
+		fw.err = c15ErrKind
+		tags = append(tags, "error_kind:"+c15ErrKindName)
+		c.Logf("the writer's error is %s", c15ErrKindName)
+	}
 	var err error
 	if p, val, site := Safe(func() { err = rd.to(t, w) }); p {
 		x.FailSite("C15.no_panic", append(tags, "panic"), site, "%s RenderTo panicked with a failing writer: %v; table %q, %s at call %d", rd.name, val, tb.name, mn, k)
